@@ -218,6 +218,7 @@ type aaOutcome struct {
 	oracleValid, canon   bool
 	err                  string
 	respLen              int
+	attempts             int
 }
 
 func runAA(k aaCase) (out aaOutcome) {
@@ -285,6 +286,7 @@ func runAA(k aaCase) (out aaOutcome) {
 		replayed = resp[:len(resp)-2]
 	}
 	var wire []byte
+	var wires [][]byte // the challenge of EVERY INTERNAL AUTHENTICATE of the call
 	var finalResp []byte
 	before := 0
 	s.Link.Script = func(idx int, cmd []byte, l *link.Link) link.Action {
@@ -295,6 +297,16 @@ func runAA(k aaCase) (out aaOutcome) {
 				return g // not the INTERNAL AUTHENTICATE
 			}
 			wire = tr.AaChallenges[len(tr.AaChallenges)-1]
+			wires = append(wires, wire)
+			if k.Response == "error-first" {
+				if len(wires) == 1 {
+					return []byte{0x6F, 0x00} // a transient fault: the chip's answer is lost, the terminal sees an error status
+				}
+				if !k.UnderSM && len(g) >= 3 {
+					finalResp = append([]byte{}, g[:len(g)-2]...)
+				}
+				return g
+			}
 			if k.UnderSM {
 				// the response is protected: re-protecting would need the session keys; SM runs use genuine / other-key only
 				return g
@@ -330,7 +342,13 @@ func runAA(k aaCase) (out aaOutcome) {
 	if res != nil && res.Success && out.err == "" {
 		out.live = "success"
 	}
-	out.wireIsSupplied = bytes.Equal(wire, supplied)
+	out.wireIsSupplied = len(wires) > 0
+	for _, w := range wires {
+		if !bytes.Equal(w, supplied) {
+			out.wireIsSupplied = false
+		}
+	}
+	out.attempts = len(wires)
 	if res != nil && res.Evidence != nil {
 		out.recordedIsWire = bytes.Equal(res.Evidence.Nonce, wire)
 		if finalResp == nil {
@@ -449,8 +467,14 @@ func C07(c *core.Ctx) {
 			rows = append(rows, row{core.Str(t[1]), core.Str(t[2]), core.Str(t[3]), core.Str(t[4]), core.Str(t[5])})
 		}
 	}
-	if len(rows) != 24 {
-		core.Infra("C07: expected 24 scenarios, got %d", len(rows))
+	if len(rows) != 30 {
+		core.Infra("C07: expected 30 scenarios, got %d", len(rows))
+	}
+	// the design that repeats a failed command under a fresh challenge must violate Plumbing
+	if r2, err := c.TLC(core.TLCOpts{Module: "MC_ActiveAuth", Cfg: "MC_ActiveAuth_retryfresh.cfg", Workers: 1}); err != nil {
+		core.Infra("%v", err)
+	} else if r2.OK {
+		core.Infra("MC_ActiveAuth_retryfresh: expected a counterexample to Plumbing, found none")
 	}
 	var keys []perso.AASpec
 	rsaBits := core.Pick(c, []int{1024, 1031, 2048}, []int{1024, 1029, 1031, 1280, 1536, 2048, 3072, 4096})
@@ -497,7 +521,7 @@ func C07(c *core.Ctx) {
 			}
 			for _, f := range fs {
 				n++
-				if !c.Thorough() && (n+ki+ri)%4 != 0 {
+				if !c.Thorough() && (n+ki+ri)%4 != 0 && !(rw.response == "error-first" && rw.source == "caller" && rw.offline == "same" && ki%3 == 0) {
 					continue
 				}
 				cases = append(cases, aaCase{AA: key, Source: rw.source, Response: rw.response, Form: f, Offline: rw.offline, Seed: c.Rand.Int63()})
@@ -525,6 +549,10 @@ func C07(c *core.Ctx) {
 		}
 		sp := spec[k.Source+"/"+k.Response+"/"+k.Offline]
 		rp := map[string]any{"case": k, "outcome": fmt.Sprintf("%+v", o), "spec": fmt.Sprintf("%+v", sp)}
+		// plumbing first: it does not depend on what came back
+		if k.Source == "caller" && !(o.wireIsSupplied) {
+			c.Violation("C07:challenge-on-wire-differs", fmt.Sprintf("an INTERNAL AUTHENTICATE command of the call (%d sent) did not carry the caller-supplied challenge (%s)", o.attempts, k), rp)
+		}
 		if !o.canon {
 			grey++
 			continue
@@ -537,9 +565,6 @@ func C07(c *core.Ctx) {
 			c.Violation("C07:accepts-"+k.Response+"-"+k.Form, fmt.Sprintf("a response that is not a valid signature over the transmitted challenge was accepted (%s)", k), rp)
 		}
 		// the specification's verdict for the scenario class agrees with the oracle by construction; check the plumbing
-		if k.Source == "caller" && !(o.wireIsSupplied) {
-			c.Violation("C07:challenge-on-wire-differs", fmt.Sprintf("the INTERNAL AUTHENTICATE command did not carry the caller-supplied challenge (%s)", k), rp)
-		}
 		if o.off != "none" && !o.recordedIsWire {
 			c.Violation("C07:recorded-nonce-differs", fmt.Sprintf("the recorded nonce is not the transmitted challenge (%s)", k), rp)
 		}
@@ -549,7 +574,7 @@ func C07(c *core.Ctx) {
 		if k.Offline != "different" && o.off != "none" && o.off != o.live {
 			c.Violation("C07:offline-differs-from-live", fmt.Sprintf("offline verification returned %q, live %q (%s)", o.off, o.live, k), rp)
 		}
-		if (sp.live == "success") != o.oracleValid && k.Response != "invalid" {
+		if (sp.live == "success") != o.oracleValid && k.Response != "invalid" && k.Response != "error-first" {
 			core.Infra("C07: scenario %s: oracle says valid=%v but the specification's class expects %s (harness inconsistency)", k, o.oracleValid, sp.live)
 		}
 	}
